@@ -247,7 +247,8 @@ T("C14", "pad-len", PU, 'b"\\x00" if msg_len % 2 else b"",', 'b"\\x00" if len(me
 # ------------------------------------------------------------------ C15
 M("C15", "no-comma", CD, 'path = path.replace("\\\\", "/").replace(",", "/")', 'path = path.replace("\\\\", "/")', ["D15.1"])
 M("C15", "port-gt-65535", CD, "if port <= 0 or port >= 65535:", "if port < 0 or port > 65536:", ["D15.1"])
-M("C15", "no-odd-test", CD, "            if len(segments) % 2:\n                raise RequestError(\n                    \"Invalid connection path, must contain segment pairs(port/link), \"\n                    f\"{len(segments)} segments provided.\"\n                )\n", "", ["D15.2"])
+# (the former C15 mutant "no-odd-test" removed the odd-count test: the pairing loop then fails to unpack the last element and the
+# wrapper still raises RequestError - an equivalent mutant, as the witness folding shows)
 M("C15", "except-valueerror", CD, "    except RequestError:\n        raise\n    except Exception as err:\n        raise RequestError(f\"Failed to parse cip route: {path}\") from err", "    except RequestError:\n        raise\n    except ValueError as err:\n        raise RequestError(f\"Failed to parse cip route: {path}\") from err", ["D15.3"])
 M("C15", "bp-2", DT, '        "bp": 0b_000_0_0001,', '        "bp": 0b_000_0_0010,', ["D15.4"])
 M("C15", "logix-no-autoslot", LX, "    _auto_slot_cip_path = True", "    _auto_slot_cip_path = False", ["D15.6"])
